@@ -149,6 +149,15 @@ theorem received_tokens_pruned_and_rotation_completes (n : Node) :
 example : (({ (Node.init 0).recvToken 7 with now := 601 } : Node).rotate).recv = [] ∧
     (({ (Node.init 0).recvToken 7 with now := 600 } : Node).rotate).recv = [(7, 0)] := by decide
 
+/-- Client side of the window: the node's own `store_on_nodes` presents a token to node `nid` only if it received one
+    from `nid` less than TOKEN_EXPIRATION_TIME ago. -/
+theorem client_presents_only_fresh_tokens (n : Node) (nid : Nat) (h : n.maySendStore nid = true) :
+    ∃ e ∈ n.recv, e.1 = nid ∧ n.now < e.2 + Gen.tokenExpirationTime := by
+  unfold Node.maySendStore at h
+  obtain ⟨e, he, hc⟩ := List.any_eq_true.mp h
+  simp only [Bool.and_eq_true, beq_iff_eq, Gen.sendTokenCmp, Cmp.eval, decide_eq_true_eq] at hc
+  exact ⟨e, he, hc.1, hc.2⟩
+
 /-- two rotation periods are within the advertised token lifetime -/
 theorem window_within_token_expiration : 2 * Gen.tokenMaintenanceInterval ≤ Gen.tokenExpirationTime := by decide
 
@@ -203,11 +212,12 @@ example : ((Node.init 0).run toyC [.adv 299, .rotate, .adv 1]).secrets = [(1, 29
 
 /-! ## find -/
 
-/-- `on_find_request` answers with at most MAX_VALUES_IN_FIND values, each of them the data of a value stored under the
-    target, and with the token of this requester under the newest secret. -/
+/-- `on_find_request` answers with the token of this requester (source address and key) under the newest secret, with
+    values that are the data of values stored under the target, and — when the code passes a limit to `storage.get`
+    (generated `Gen.findLimit`) — with at most that many. -/
 theorem find_reports_stored_values {Tok : Type} (C : Crypto Tok) (n : Node) (who : Ident) (nid target offset : Nat)
     (force : Bool) (tok : Tok) (vals : List Nat) (h : (n.findReq C who nid target offset force).2 = some (tok, vals)) :
-    tok = C.tokenHash who.addr who.mid n.newestSecret ∧ vals.length ≤ Gen.maxValuesInFind ∧
+    tok = C.tokenHash who.addr who.mid n.newestSecret ∧ (∀ lim, Gen.findLimit = some lim → vals.length ≤ lim) ∧
     ∀ d ∈ vals, ∃ v ∈ n.store.getItems target, v.data = d := by
   unfold Node.findReq at h
   split at h
@@ -215,18 +225,23 @@ theorem find_reports_stored_values {Tok : Type} (C : Crypto Tok) (n : Node) (who
   · simp only [Option.some.injEq, Prod.mk.injEq] at h
     obtain ⟨h1, h2⟩ := h
     refine ⟨h1.symm, ?_, ?_⟩
-    · rw [← h2]
+    · intro lim hl
+      rw [← h2]
       split
       · simp
-      · simp only [Storage.get, sliceItems, List.length_map, List.length_take]
+      · simp only [Storage.get, sliceItems, hl, List.length_map, List.length_take]
         exact Nat.min_le_left _ _
     · intro d hd
       rw [← h2] at hd
       split at hd
       · simp at hd
-      · simp only [Storage.get, sliceItems, List.mem_map] at hd
+      · simp only [Storage.get, List.mem_map] at hd
         obtain ⟨v, hv, rfl⟩ := hd
-        exact ⟨v, List.mem_of_mem_drop (List.mem_of_mem_take hv), rfl⟩
+        refine ⟨v, ?_, rfl⟩
+        unfold sliceItems at hv
+        split at hv
+        · exact List.mem_of_mem_drop hv
+        · exact List.mem_of_mem_drop (List.mem_of_mem_take hv)
 
 /-- In every reachable state the token a find hands out is accepted by `check_token` for the same requester
     (the gate of `store_requires_token` is not vacuous at any point of any history). -/
@@ -379,6 +394,21 @@ theorem each_signer_reported_once {Tok : Type} (C : Crypto Tok) (blobs : List Bl
       simp only [List.mem_append, List.mem_filterMap]
       left
       exact ⟨g, hg, by simp [he, hk]⟩
+
+/-- `Crawl.values` neither invents nor loses values and reports each at most once: a value is in the merged list iff some
+    find response contained it. -/
+theorem crawl_values_exact (responses : List (List Nat)) :
+    (crawlValues responses).Nodup ∧ ∀ x, x ∈ crawlValues responses ↔ ∃ r ∈ responses, x ∈ r := by
+  unfold crawlValues
+  refine ⟨nodup_dedup _ _, ?_⟩
+  intro x
+  rw [mem_dedup, mem_interleave]
+  · simp
+  · intro l hl
+    have := (le_foldl_max (responses.map List.length) 0).2 l.length (List.mem_map.mpr ⟨l, hl, rfl⟩)
+    omega
+
+example : crawlValues [[1, 2, 3], [4], [2, 5]] = [1, 4, 2, 5, 3] := by decide
 
 /-- Within one signer's group the reported entry has the highest version (Python `max`, first maximal element). -/
 theorem group_pick_is_highest_version (l : List (Nat × Nat)) (e : Nat × Nat)
